@@ -126,7 +126,14 @@ def seq_case(rep, rng, lines, expect):
         elif op[0] == 'chanclose':
             ch = objs[op[1]]
             healthy_now = conn.current_state == 3 and not conn.exceptions
+            n_ok = sum(1 for cid, name in written if name == 'Channel.CloseOk' and cid == op[1] + 1)
+            pending = [show_err(x) for x in ch.exceptions]
             ch.on_frame(spec.Channel.Close(reply_code=op[2], reply_text='reason-%d' % op[2]))
+            n_ok2 = sum(1 for cid, name in written if name == 'Channel.CloseOk' and cid == op[1] + 1)
+            if healthy_now and n_ok2 != n_ok + 1:
+                rep.violation('C11/no-closeok-with-pending-error' if pending else 'C11/closeok-count',
+                              'Channel.Close from the broker on a healthy connection was answered with %d Channel.CloseOk '
+                              '(errors pending on the channel: %s)' % (n_ok2 - n_ok, pending or 'none'), replay)
             lines.append('c07.chanclose %d %d' % (op[1], op[2]))
             expect.append('ok ' + proj(conn, objs, written))
             # ---- monitor: the next operation on that channel raises the broker's code and text -----
